@@ -127,6 +127,9 @@ structure AuthIn where
   dsSigsGood : Bool := false            -- … and every in-zone RRset of that DS response verifies
   dsNsec : List Nsec := []
   dsNsec3 : List SdnsVerif.Model.Nsec3.Nsec3 := []
+  -- … or a DS RRset for the first cut in its answer section: 0 none, 1 a DS this validator supports
+  -- (digest SHA-1/256/384 and a DNSKEY algorithm it verifies), 2 only unsupported ones (RFC 6840 §5.2)
+  dsAtCut : Nat := 0
 
 def authServfail : AuthOut := { servfail := true, ad := false, marked := false, aggressive := false }
 def authPassed : AuthOut := { servfail := false, ad := false, marked := false, aggressive := false }
@@ -165,13 +168,21 @@ def firstCut (zone pn : Name) : Name := pn.take (zone.length + 1)
 /-- `provenInsecureDelegation` as far as ONE signed zone goes (no DS RRset is
 ever returned, so no secure delegation is descended into): the name must lie
 strictly below the zone, and the DS lookup for the first cut candidate must
-come back validly signed with records that prove "delegation, no DS"
-(`VerifyDelegationForZoneWithWork` if it carries in-zone NSEC3, else
-`VerifyDelegationNSEC`). Any error is `false` (fail closed). -/
+come back validly signed, either with a DS RRset none of whose records this
+validator supports (RFC 6840 §5.2: treated as insecure), or without DS and with
+records that prove "delegation, no DS" (`VerifyDelegationForZoneWithWork` if it
+carries in-zone NSEC3, else `VerifyDelegationNSEC`). A supported DS means a
+SECURE child: the walk descends and, the child's key being unavailable, fails
+closed. Any error is `false`. -/
 def provenInsecure (H : SdnsVerif.Model.Nsec3.HashFn) (i : AuthIn) : Bool :=
   let pn := insecureProofName i.q i.t
   if !nameInZone pn i.signer || pn == i.signer then false else
   if !i.dsSigsGood then false else
+  -- a DS RRset at the cut: only unsupported digests / algorithms = insecure (RFC 6840 §5.2); a supported one
+  -- makes the child secure and the walk descends into it, where — with no key of the child at hand — the
+  -- next lookup fails closed (and a name that IS the cut has no further candidate): not excused
+  if i.dsAtCut = 2 then true else
+  if i.dsAtCut = 1 then false else
   let s3 := i.dsNsec3.filter fun r => nameInZone r.owner i.signer
   let s := filterToZone i.signer i.dsNsec
   if !s3.isEmpty then SdnsVerif.Model.Nsec3.verifyDelegation H s3 i.signer (firstCut i.signer pn) == .ok ()
